@@ -66,5 +66,15 @@ for d in os.listdir(os.path.join(V, ".build")):
         shutil.rmtree(os.path.join(V, ".build", d), ignore_errors=True)
 shutil.rmtree(clone, ignore_errors=True)
 shutil.rmtree("/scratch/mut-run-" + name, ignore_errors=True)
-json.dump(res, open(os.path.join(sdir, "eval.json"), "w"), indent=1)
+# re-evaluations after a check was strengthened (--skip-pinned --skip-demo) keep the earlier confirmation and the earlier verdicts
+evp = os.path.join(sdir, "eval.json")
+if os.path.exists(evp):
+    old = json.load(open(evp))
+    for k in ("pinned_55_pass", "demo_with_change", "demo_without_change"):
+        if k not in res and k in old:
+            res[k] = old[k]
+    hist = old.get("history", [])
+    hist.append({"time": old.get("time"), "checks": {k: {"exit": v["exit"], "keys": v["keys"][:6]} for k, v in old.get("checks", {}).items()}})
+    res["history"] = hist
+json.dump(res, open(evp, "w"), indent=1)
 print(json.dumps(res)[:600])
